@@ -421,6 +421,92 @@ def run_case(case: dict):
 
 def enum_big(tier):
     yield {"big": True, "existing": 1500, "incoming": 30000}
+    for n in (999, 1000, 1001, 1500, 5000):
+        yield {"roundtrip": n}
+    for later in (0, 1, 3):
+        for newport in (1965, 1966):
+            yield {"interleaved": True, "later_rows": later, "newport": newport}
+
+
+def run_roundtrip_big(case):
+    """Export / import of a store with many pins (everything is read back directly from the SQLite files)."""
+    from nauyaca.security.tofu import TOFUDatabase
+
+    d = scratch.subdir("c12-rt")
+    try:
+        dbpath = Path(d) / "tofu.db"
+        db = TOFUDatabase(dbpath)
+        conn = _real_connect(str(dbpath))
+        conn.executemany("INSERT INTO known_hosts VALUES (?,?,?,?,?)",
+                         [(f"h{i}.example", 1965 + i % 3, FPS[i % 3], f"2019-01-01T00:{i // 60 % 60:02d}:{i % 60:02d}+00:00",
+                           f"2021-01-01T00:{i // 60 % 60:02d}:{i % 60:02d}+00:00") for i in range(case["roundtrip"])])
+        conn.commit()
+        conn.close()
+        out = Path(d) / "export.toml"
+        db.export_toml(out)
+        db2path = Path(d) / "second.db"
+        TOFUDatabase(db2path).import_toml(out)
+        t1, t2 = read_table(dbpath), read_table(db2path)
+        if t1 != t2:
+            missing = [k for k in t1 if k not in t2]
+            return viol("roundtrip-differs", f"store of {len(t1)} pins exported and imported into an empty store: {len(t2)} pins arrive, "
+                        f"{len(missing)} missing (e.g. {missing[:2]})", pins=len(t1))
+        return ok(pins=len(t1), nonempty_fail=0)
+    finally:
+        import shutil
+
+        shutil.rmtree(d, ignore_errors=True)
+
+
+def run_interleaved(case):
+    """While an import waits for its conflict callback, another connection on the same file revokes the conflicting host
+    and pins a new one: the new host is not named by the import and must keep its pin."""
+    import cryptography.x509 as x509
+    from nauyaca.security.tofu import TOFUDatabase
+
+    d = scratch.subdir("c12-il")
+    try:
+        dbpath = Path(d) / "tofu.db"
+        db = TOFUDatabase(dbpath)
+        conn = _real_connect(str(dbpath))
+        rows = [(f"keep{i}.example", 1965, FPS[2], "2019-01-01T00:00:00+00:00", "2019-01-01T00:00:00+00:00") for i in range(3)]
+        rows.append(("conflict.example", 1965, FPS[0], "2019-02-01T00:00:00+00:00", "2019-02-01T00:00:00+00:00"))
+        conn.executemany("INSERT INTO known_hosts VALUES (?,?,?,?,?)", rows)
+        conn.commit()
+        conn.close()
+        toml = Path(d) / "in.toml"
+        toml.write_text('[_metadata]\nversion = "1.0"\n\n[hosts."conflict.example:1965"]\nhostname = "conflict.example"\nport = 1965\n'
+                        f'fingerprint = "{FPS[1]}"\nfirst_seen = "2020-01-01T00:00:00+00:00"\nlast_seen = "2021-01-01T00:00:00+00:00"\n')
+        newcert = certs.get("ec-a")
+        other = TOFUDatabase(dbpath)
+
+        def on_conflict(h, port, old, new):
+            other.revoke("conflict.example", 1965)
+            other.trust("newcomer.example", case["newport"], x509.load_der_x509_certificate(newcert.der))
+            for i in range(case["later_rows"]):
+                other.trust(f"later{i}.example", 1965, x509.load_der_x509_certificate(newcert.der))
+            return True
+
+        err = None
+        try:
+            db.import_toml(toml, merge=True, on_conflict=on_conflict)
+        except Exception as e:  # failing is all-or-nothing as well; the newcomer must be untouched either way
+            err = repr(e)
+        t = read_table(dbpath)
+        info = {"error": err, "nonempty_fail": 0}
+        for k, (fp, _fs) in t.items():
+            if k[0].startswith(("newcomer", "later")) and fp != newcert.fingerprint:
+                return viol("pin-of-unnamed-host-altered", f"{k} was pinned to {newcert.fingerprint[:20]} by another connection while the import waited "
+                            f"for its conflict callback; after the import it holds {fp[:20]} (the fingerprint imported for conflict.example)", **info)
+            if k[0].startswith("keep") and fp != FPS[2]:
+                return viol("pin-of-unnamed-host-altered", f"{k}: {fp[:20]}", **info)
+        if ("newcomer.example", case["newport"]) not in t:
+            return viol("pin-of-unnamed-host-altered", "the host pinned by the other connection is gone", **info)
+        return ok(**info)
+    finally:
+        import shutil
+
+        shutil.rmtree(d, ignore_errors=True)
 
 
 def run_big(case: dict):
@@ -430,6 +516,10 @@ def run_big(case: dict):
 
     setup_logging()
     _patch()
+    if "roundtrip" in case:
+        return run_roundtrip_big(case)
+    if case.get("interleaved"):
+        return run_interleaved(case)
     from nauyaca.security.tofu import TOFUDatabase
 
     d = scratch.subdir("c12-big")
@@ -557,9 +647,12 @@ def _bucket(case, v):
 
 LANES = [
     Lane(name="big-transaction-crash", run_case=run_big, enumerate=enum_big, budget={"quick": 1, "thorough": 1},
-         shards={"quick": 1, "thorough": 1}, nontrivial=lambda c, v: True, labels=lambda c, v: ["big"], exhaustive=True,
+         shards={"quick": 4, "thorough": 4}, nontrivial=lambda c, v: True,
+         labels=lambda c, v: ["big" if c.get("big") else ("roundtrip:%d" % c["roundtrip"] if "roundtrip" in c else "interleaved")], exhaustive=True,
          rule="one import larger than SQLite's page cache (30000 hosts into a 1500-pin store) killed at the statement "
-              "boundary before COMMIT; reopened table must equal the previous one and pass PRAGMA integrity_check"),
+              "boundary before COMMIT; reopened table must equal the previous one and pass PRAGMA integrity_check; export/"
+              "import round trips of 999..5000 pins; an import whose conflict callback runs while another connection "
+              "revokes and pins hosts"),
     Lane(name="statement-boundaries", run_case=run_case, enumerate=enum_faults, budget={"quick": 1, "thorough": 1},
          shards={"quick": 16, "thorough": 32}, nontrivial=_nontrivial, labels=_labels, bucket=_bucket, exhaustive=True,
          rule="every SQL statement boundary (injected OperationalError and SIGKILL of a forked child) of 9 (quick) / 105 "
